@@ -1013,6 +1013,13 @@ def gen_repeat(seed, tier):
                 b.ops.append({"op": "render", "w": w, "entry": rng.choice(["Render", "RenderTo"])})
             elif r < 0.62:
                 b.ops.append({"op": "render", "auto": rng.choice(["bogus", "texttable.bogus"]), "t": 1, "entry": rng.choice(["Render", "RenderTo"])})
+            elif r < 0.70 and nwr:
+                # renders into writers that fail (every Write call, three ways) are renders too: whatever a wrapper
+                # keeps between calls, the next render gives the first bytes again
+                w = rng.randint(1, nwr)
+                b.ops.append({"op": "render", "w": w, "entry": "Render"})
+                b.ops.append({"op": "faultsweep", "w": w, "entry": "RenderTo"})
+                b.ops.append({"op": "render", "w": w, "entry": rng.choice(["Render", "RenderTo"])})
             render_ops(rng, b, nwr, 1)
         out.append(b.ops)
     return out
